@@ -14,8 +14,8 @@
    for documents with markup (what each macro, environment and the maths
    parser keeps or hides); decided on the C03 stream by the marker-word
    oracle of harness/props/c03.py together with the correspondence run. *)
-From YV Require Import PyBase CharTables Token Utils Rpal Parser Ml
-                       RpalProofs MlProofs ExpandSites.
+From YV Require Import PyBase CharTables Token Utils Rpal PState Parser Exec Ml
+                       RpalProofs MlProofs ExpandSites ExecPlain ExecUnk Catalogue.
 Open Scope Z_scope.
 
 (* (1) removal of pure action lines: the characters that are no white space
@@ -26,7 +26,7 @@ Theorem C03_action_lines_conserve : forall is_space,
   forall tokens r,
   Forall E0 tokens ->
   remove_pure_action_lines is_space tokens = Ok r ->
-  nst is_space r = nst is_space tokens.
+  RpalProofs.nst is_space r = RpalProofs.nst is_space tokens.
 Proof. exact rpal_conserves. Qed.
 Print Assumptions C03_action_lines_conserve.
 
@@ -45,6 +45,23 @@ Theorem C03_macro_body : forall args body cur r,
   map shape (noact r) = map shape (noact (subst_body args body)).
 Proof. exact gen_repl_subst. Qed.
 Print Assumptions C03_macro_body.
+
+(* (4) end to end through the main loop of the expander, for every token
+   list of plain text, undeclared control words, comments and grouping
+   braces: every character of the text that is no white space is in the
+   output, in order, and nothing else -- the markup vanishes, the words stay *)
+Theorem C03_words_stay_markup_vanishes : forall rd fuel toks st st' out,
+  Forall (ucls py_tables (macros st)) toks ->
+  exec py_tables rd fuel (TSeq toks None []) st = Ok (st', ASeq out []) ->
+  ExecUnk.nst py_tables out = ExecUnk.nst py_tables (plains toks) /\
+  unknowns st' = fold_left add_unknown (names toks) (unknowns st) /\
+  macros st' = macros st.
+Proof.
+  exact (fun rd fuel toks st st' out =>
+           exec_unknowns_text py_tables rd (eq_refl true) (fun c => eq_refl) fuel toks st st' out
+                              (eq_refl true)).
+Qed.
+Print Assumptions C03_words_stay_markup_vanishes.
 
 Example C03_nonvacuous : py_isspace c_nl = true /\
   E0 (ActionT 3) /\ E0 (TextT 0 [97]%N).
